@@ -261,6 +261,53 @@ def correspondence(ctx):
         if re.search(r"leaks=[1-9]", o):
             ctx.violation("object freed but allocations remain: %s -> %s" % (ln[:160], o), dict(kind="monitor", op=ln, result=o))
     ev += len(sl); distinct |= set(sl)
+    # ---------- static dictionaries of exactly the estimated size ----------
+    dl2 = ["sdict %d %d %d %d" % (rng.choice([1, 3, 5, 9, 13, 19]), rng.choice([0, 1, 7, 8, 9, 63, 100, 1001, 4093, 65537, 112640]) + rng.randint(0, 7), rng.randint(0, 1), rng.randrange(1 << 30)) for _ in range(90 if quick else 1500)]
+    outs3 = frames.parallel(lambda ch: frames.run_lines(exe_m, ch, timeout=3000)[1], frames.split_chunks(dl2, 16))
+    if len(outs3) != len(dl2):
+        ctx.violation("static dictionary harness crashed (%d of %d lines answered)" % (len(outs3), len(dl2)), dict(kind="monitor", ops=dl2[len(outs3):len(outs3) + 1]))
+    for ln, o in zip(dl2, outs3):
+        if not o.startswith("ok"):
+            ctx.violation("static dictionary in a block of exactly the estimated size: %s -> %s" % (ln, o), dict(kind="monitor", op=ln, result=o))
+    ev += len(dl2); distinct |= set(dl2)
+    # ---------- sequences of frames with different buffer needs through ONE decoding context ----------
+    hd = frames.harness("plain")
+    cl, cmeta = [], []
+    for i in range(40 if quick else 500):
+        fr = []
+        for k in range(rng.choice([2, 2, 3])):
+            wl = rng.choice([10, 13, 16, 17, 18, 20])
+            n = rng.choice([3000, 60000, 100000, 250000])
+            kindd = rng.choice(["text", "noisy"])
+            data = bytes(rng.choice(b"etaoin shrdlu,.\n") for _ in range(n)) if kindd == "text" else bytes(rng.getrandbits(8) if rng.random() < 0.85 else 32 for _ in range(n))
+            p = {100: rng.choice([1, 3, 5]), 101: wl, 200: rng.choice([0, 1])}
+            fr.append((p, data))
+            cl.append("comp2 c2 %s %s" % (frames.pstr(p), data.hex()))
+        cmeta.append(fr)
+    rc, cout, err = frames.run_lines(hd, cl, timeout=1800)
+    it = iter(cout)
+    ql, qmeta = [], []
+    for fr in cmeta:
+        blobs, plain = [], b""
+        bad = False
+        for p, data in fr:
+            o = next(it, "")
+            if o.startswith("err") or not o:
+                bad = True; continue
+            blobs.append(bytes.fromhex(o.strip())); plain += data
+        if bad or not blobs:
+            continue
+        stream = b"".join(blobs)
+        chunks = rng.choice(["1000", "4096", "70000", "333,70000"])
+        for mode in ("dstatic %d" % (1 << 20), "dheap 27"):
+            ql.append("%s %s %s %s" % (mode, stream.hex(), chunks, rng.choice(["30000", "100000,7"])))
+            qmeta.append((len(plain), plain))
+    qo = frames.parallel(lambda ch: frames.run_lines(exe_m, ch, timeout=3000)[1], frames.split_chunks(ql, 16))
+    import hashlib
+    for ln, o, (n, plain) in zip(ql, qo, qmeta):
+        if not o.startswith("ok %d " % n):
+            ctx.violation("frames with different buffer needs through one %s decoding context: %s instead of %d bytes (first frames decode alone)" % (ln.split()[0], o[:100], n), dict(kind="monitor", op=ln[:200000], result=o))
+    ev += len(ql); distinct |= set(ql)
     return dict(evaluations=ev, distinct_nontrivial=len(distinct),
                 rule="est lines (random cParams x {cctx,cstream}); ws scenarios (static/heap x one-shot/stream x misalignment x 1..150 uses with levels l<=L or explicit parameter sets incl. LDM, row finder, maxBlockSize, external producer) "
                      "with every use compared field by field with the Lean workspace model; decoder frames (window 1 KiB..3.5 MiB incl. mantissas, FCS present/absent, single segment) x limits at / around the window; sizeof lines. distinct = distinct op lines",
